@@ -3,6 +3,7 @@ import CpModel.Dispatch
 import CpModel.DispatchIO
 import CpModel.Config
 import CpModel.ConfigHist
+import CpModel.ConfigNs
 import CpModel.Unrepr
 import CpModel.UnreprIO
 /-!
@@ -13,6 +14,11 @@ import CpModel.UnreprIO
     confh <D|M> <method> <root> <noneattrs> <nodes> <sections> <global conf> <path> <tool handlers>
         → the same plus ` H=<tool>:<kwargs of the page-handler tool call>` | ` H=-`
           (tool handlers = `-` | <node id>:<tool>:<kwargs conf>;…   — `tools.<t>.handler(**kw)` page handlers)
+    ns <handlers> <conf>       → `EV=<events> P=<0|1>`        (NamespaceSet.__call__; P: an exception leaves the call)
+          handlers = `-` | <name>:<P | C0 | C1>:<raises: - | key+key…>;…      events = `-` | e:<ns> | c:<ns>:<k>:<val> | x:<ns>:<0|1>, …
+    nseff <request|response|hooks|error_page|server|engine|log|checker> <key> <val> <aux>
+                               → A:<target>:<attr>:<val> | I:<target>:<key>:<val> | E:<code|D>:<val> | H:<point> | S:<target>:<0|1> | R | ?
+          aux = hook points `p+p…` (hooks), plugins `name=0|1+…` (engine), `-` otherwise
     fc <sections> <path> <key> <default: - | val>        → `V=<val>` | `V=-`
     build <ast>                                            → `ok <val>` | `err <class>`      (reprconf._Builder)
     toast <val>                                            → `<ast>`                         (AST of repr(val))
@@ -33,8 +39,59 @@ def parseTh (s : String) : Option ConfigHist.ToolHandler :=
     pure { node := ← i.toNat?, tool := ← parseName t, kwargs := kw.getD [] }
   | _ => none
 
+def parseHandler (s : String) : Option ConfigNs.Handler :=
+  match s.splitOn ":" with
+  | [n, k, r] => do
+    let kind : ConfigNs.HKind ← if k == "P" then some .plain else if k == "C0" then some (.ctx false)
+      else if k == "C1" then some (.ctx true) else none
+    pure { name := ← parseName n, kind := kind, raisesOn := ← parseList "+" parseName r }
+  | _ => none
+
+def showEv : ConfigNs.Ev → String
+  | .enter ns => "e:" ++ Proto.text ns
+  | .call ns k v => "c:" ++ Proto.text ns ++ ":" ++ Proto.text k ++ ":" ++ showVal v
+  | .exit ns exc => "x:" ++ Proto.text ns ++ ":" ++ (if exc then "1" else "0")
+
+def showEffect : ConfigNs.Effect → String
+  | .setattr t a v => "A:" ++ Proto.text t ++ ":" ++ Proto.text a ++ ":" ++ showVal v
+  | .setitem t k v => "I:" ++ Proto.text t ++ ":" ++ Proto.text k ++ ":" ++ showVal v
+  | .errorPage none v => "E:D:" ++ showVal v
+  | .errorPage (some n) v => s!"E:{n}:" ++ showVal v
+  | .hook p => "H:" ++ Proto.text p
+  | .subscribe t on => "S:" ++ Proto.text t ++ ":" ++ (if on then "1" else "0")
+  | .raises => "R"
+
+def parsePlugin (s : String) : Option (Name × Bool) :=
+  match s.splitOn "=" with
+  | [n, b] => do pure (← parseName n, b == "1")
+  | _ => none
+
 def step (line : String) : String :=
   match Proto.fields line with
+  | ["ns", hs, conf] =>
+    match parseList ";" parseHandler hs, parseConf conf with
+    | some handlers, some c =>
+      let (ev, p) := ConfigNs.nsCall (c.getD []) handlers
+      s!"EV={if ev.isEmpty then "-" else ",".intercalate (ev.map showEv)} P={if p then 1 else 0}"
+    | _, _ => "bad-op"
+  | ["nseff", which, key, val, aux] =>
+    match parseName key, parseVal val with
+    | some k, some v =>
+      let eff : Option (Option ConfigNs.Effect) :=
+        if which == "request" then some (some (ConfigNs.requestNs k v))
+        else if which == "response" then some (some (ConfigNs.responseNs k v))
+        else if which == "hooks" then (parseList "+" parseName aux).map fun pts => some (ConfigNs.hooksNs pts k)
+        else if which == "error_page" then some (ConfigNs.errorPageNs k v)
+        else if which == "server" then some (some (ConfigNs.serverNs k v))
+        else if which == "engine" then (parseList "+" parsePlugin aux).map fun pl => some (ConfigNs.engineNs pl k v)
+        else if which == "log" then some (some (ConfigNs.attrNs "log".toList k v))
+        else if which == "checker" then some (some (ConfigNs.attrNs "checker".toList k v))
+        else none
+      match eff with
+      | none => "bad-op"
+      | some none => "?"
+      | some (some e) => showEffect e
+    | _, _ => "bad-op"
   | ["confh", kind, meth, root, na, nodes, secs, glob, path, th] =>
     match parseApp root na nodes secs, Proto.untext? path, parseName meth, parseConf glob, parseList ";" parseTh th with
     | some app, some p, some m, some g, some ths =>
